@@ -1015,11 +1015,14 @@ func dbcsSafeTrimTitle(title []byte, theLen int) (newTitle []byte) {
 		return title
 	}
 
-	title = title[:theLen-2]
-	title = cmsys.DBCSSafeTrim(title)
-	title = append(title, ptttype.STR_DOTS...)
+	// build the trimmed title in a buffer of its own: title aliases the caller's
+	// Title field and appending to it would write the dots into that field.
+	trimmed := cmsys.DBCSSafeTrim(title[:theLen-2])
+	newTitle = make([]byte, 0, len(trimmed)+len(ptttype.STR_DOTS))
+	newTitle = append(newTitle, trimmed...)
+	newTitle = append(newTitle, ptttype.STR_DOTS...)
 
-	return title
+	return newTitle
 }
 
 func GetWebURL(board *ptttype.BoardHeaderRaw, fhdr *ptttype.FileHeaderRaw) (url string) {
